@@ -22,13 +22,12 @@ where
 
         let len = match memchr(LINE_FEED, src) {
             Some(i) => {
-                let line = &src[..i];
+                buf.extend_from_slice(&src[..i]);
 
-                if line.ends_with(&[CARRIAGE_RETURN]) {
-                    let end = line.len() - 1;
-                    buf.extend_from_slice(&line[..end]);
-                } else {
-                    buf.extend_from_slice(line);
+                // The carriage return may have been delivered in a previous buffer, so it is
+                // stripped from the assembled sequence rather than from the current buffer.
+                if n + i > 0 && buf.ends_with(&[CARRIAGE_RETURN]) {
+                    buf.pop();
                 }
 
                 i + 1
